@@ -287,8 +287,18 @@ fn format_expression_internal(
             // If not, just format and return the internal expression. Otherwise, format the parentheses
             let use_internal_expression = check_excess_parentheses(expression, context);
 
+            // Comments directly inside the parentheses (after `(` or before `)`) have nowhere to go once the
+            // parentheses are removed, so the parentheses are kept for them
+            let comments_inside_parentheses = {
+                let (start_parens, end_parens) = contained.tokens();
+                start_parens
+                    .trailing_trivia()
+                    .chain(end_parens.leading_trivia())
+                    .any(trivia_util::trivia_is_comment)
+            };
+
             // If the context is for a prefix, we should always keep the parentheses, as they are always required
-            if use_internal_expression && !keep_parentheses {
+            if use_internal_expression && !keep_parentheses && !comments_inside_parentheses {
                 // Get the leading and trailing comments from contained span and append them onto the expression
                 let (start_parens, end_parens) = contained.tokens();
                 let leading_comments = start_parens
@@ -1371,8 +1381,21 @@ fn format_hanging_expression_(
             // If not, just format and return the internal expression. Otherwise, format the parentheses
             let use_internal_expression = check_excess_parentheses(expression, expression_context);
 
+            // Comments directly inside the parentheses (after `(` or before `)`) have nowhere to go once the
+            // parentheses are removed, so the parentheses are kept for them
+            // (when hanging, the comments before `(` and after `)` are not carried over either)
+            let comments_inside_parentheses = {
+                let (start_parens, end_parens) = contained.tokens();
+                start_parens
+                    .leading_trivia()
+                    .chain(start_parens.trailing_trivia())
+                    .chain(end_parens.leading_trivia())
+                    .chain(end_parens.trailing_trivia())
+                    .any(trivia_util::trivia_is_comment)
+            };
+
             // If the context is for a prefix, we should always keep the parentheses, as they are always required
-            if use_internal_expression && !keep_parentheses {
+            if use_internal_expression && !keep_parentheses && !comments_inside_parentheses {
                 format_hanging_expression_(
                     ctx,
                     expression,
